@@ -882,6 +882,9 @@ pub fn adversarial_trailers(rng: &mut Rng, header: &[u8]) -> Vec<Vec<u8>> {
         vec![0x04, 0x00, 0x00],
         vec![0xff],
         "\u{20ac}".as_bytes().to_vec(),
+        "\u{20ac}".repeat(45).into_bytes(),
+        "\u{e9}".repeat(70).into_bytes(),
+        "x\u{1f600}".repeat(30).into_bytes(),
     ];
     for _ in 0..3 {
         let n = rng.range(1, 24);
@@ -894,7 +897,34 @@ pub fn adversarial_trailers(rng: &mut Rng, header: &[u8]) -> Vec<Vec<u8>> {
 
 /// A peer that is not speaking PROXY (correctly) at all.
 pub fn gen_junk(rng: &mut Rng) -> (Vec<u8>, &'static str) {
-    match rng.below(9) {
+    match rng.below(10) {
+        9 => {
+            // long valid UTF-8 text, dense in multi-byte characters, 90..320 bytes, with an
+            // optional well-formed line in front and an optional late CR
+            let mut s = String::new();
+            match rng.below(4) {
+                0 => s.push_str("PROXY UNKNOWN "),
+                1 => s.push_str("PROXY TCP4 1.2.3.4 5.6.7.8 80 443\r\n"),
+                2 => s.push_str("PROXY UNKNOWN\r\n"),
+                _ => {}
+            }
+            let target = rng.range(90, 320);
+            let cr_at = if rng.chance(1, 2) { rng.range(80, 140) } else { usize::MAX };
+            while s.len() < target {
+                if s.len() >= cr_at && !s.as_bytes()[s.len().saturating_sub(4)..].contains(&b'\r') && rng.chance(1, 3) {
+                    s.push('\r');
+                    if rng.chance(1, 2) {
+                        s.push('\n');
+                    }
+                } else if rng.chance(1, 2) {
+                    let m: &str = *rng.pick(MULTIBYTE);
+                    s.push_str(m);
+                } else {
+                    s.push(*rng.pick(b"ab1 .:") as char);
+                }
+            }
+            (s.into_bytes(), "long_utf8_text")
+        }
         0 => {
             let n = rng.range(0, 300);
             (rng.bytes(n), "random_bytes")
